@@ -35,13 +35,14 @@ func init() {
 			// the library's own handlers block too: a state machine whose CEA write is stuck on one
 			// connection (and whose handshake notifications nobody collects) must go on serving the other
 			{Name: "state-machine-stalled-cea", Weight: 1, Bubble: true, Run: func(e *Env) { smaRun(e, "C08") }},
+			{Name: "client-two-connections-blocked-handler", Weight: 1, Bubble: true, Run: c08ClientTwo},
 			{Name: "serve-yield", Weight: 3, Bubble: true, Run: func(e *Env) {
 				t := e.T
 				cfg := srvCfg{prop: "C08", nConns: t.Range(2, 3), nDialled: t.Draw(2), msgsPer: [2]int{1, 5}, parkPct: 50, answerPct: 30, yields: true, cnTasks: true}
 				newSrvWorld(e, cfg).run()
 			}},
 		},
-		MustProbes: []string{"yield-parked", "closenotify-from-task", "back-to-back-accept", "deferred-answer", "sctp-handler-parked", "answer-write-stalled", "late-connection", "other-connection-served-during-stalled-cea"},
+		MustProbes: []string{"yield-parked", "closenotify-from-task", "back-to-back-accept", "deferred-answer", "sctp-handler-parked", "answer-write-stalled", "late-connection", "other-connection-served-during-stalled-cea", "second-connection-served-while-first-handler-blocked"},
 	})
 	register(&Property{
 		ID: "C09", Level: "exploration",
